@@ -3,8 +3,8 @@ package main
 import (
 	"flag"
 
-	"golang.org/x/tools/go/ssa"
 	"fmt"
+	"golang.org/x/tools/go/ssa"
 	"os"
 	"runtime/debug"
 	"sort"
@@ -104,10 +104,15 @@ func runProp(p *propDef, tier, repo, verif string, seed int, variant string) (co
 		code2, info := thorough(p, repo, verif, known)
 		extra["thorough"] = info
 		if code2 != 0 {
-			fmt.Printf("CHECKER-ERROR property=%s: thorough self-test failed: %v\n", p.id, info["failures"])
-			// still write evidence of the main run, but signal breakage
-			r.finish(finishOpts{verifDir: verif, tier: tier, seed: seed, start: start, w: w, known: known,
+			// evidence of the main run is written either way. A violation found on the tree itself is the
+			// verdict (exit 1); self-test inputs applied on top of a violating tree say nothing. Only when the
+			// tree is clean does a failing self-test mean the checker is broken (exit 2).
+			main := r.finish(finishOpts{verifDir: verif, tier: tier, seed: seed, start: start, w: w, known: known,
 				cmd: fmt.Sprintf("./bin/xcheck -prop %s -tier %s", p.id, tier), trusted: append(append([]string{}, commonTrusted...), p.trusted...), explain: p.explain, assume: p.assume, extra: extra})
+			if main != 0 {
+				return main
+			}
+			fmt.Printf("CHECKER-ERROR property=%s: thorough self-test failed: %v\n", p.id, info["failures"])
 			return 2
 		}
 	}
